@@ -130,7 +130,8 @@ def build(repo, variant='resp'):
     g.body_start((P, 'set_content_format'), '        proof { lemma_cf_fits_u16(cf); }')
     g.contract((P, 'get_content_format'), '''        ensures
             // a value of at most 2 bytes (what the setter stores) reads back as its registry entry ...
-            opts_view(self.options).contains_key(12) && opts_view(self.options)[12].len() > 0 && opts_view(self.options)[12][0].len() <= 2
+            // (one Content-Format value, as the setter leaves it; what a message with several reports is left open - but see below)
+            opts_view(self.options).contains_key(12) && opts_view(self.options)[12].len() == 1 && opts_view(self.options)[12][0].len() <= 2
                 ==> r == cf_of_view(opts_view(self.options)),
             // ... nothing else is ever reported as a named format it is not
             r is Some ==> opts_view(self.options).contains_key(12) && opts_view(self.options)[12].len() > 0
@@ -145,11 +146,16 @@ def build(repo, variant='resp'):
         ensures
             r == (old(self).response is Some && error.code is Some),
             final(self).message == old(self).message, final(self).source == old(self).source,
-            !r ==> final(self).response == old(self).response,
+            (final(self).response is Some) == (old(self).response is Some),
+            // whether it reports success or failure: only code, diagnostic payload and content format may change - never the correlation fields
+            old(self).response is Some ==> ({
+                let m0 = old(self).response->0.message; let m1 = final(self).response->0.message;
+                &&& m1.header.ver_type_tkl == m0.header.ver_type_tkl &&& m1.header.message_id == m0.header.message_id &&& m1.token@ == m0.token@
+                &&& opts_view(m1.options).remove(12) =~= opts_view(m0.options).remove(12)
+                &&& (error.code is None ==> m1.header.code == m0.header.code)
+            }),
             r ==> final(self).response is Some && ({
                 let m0 = old(self).response->0.message; let m1 = final(self).response->0.message;
-                // only code, diagnostic payload and content format change - never the correlation fields
-                &&& m1.header.ver_type_tkl == m0.header.ver_type_tkl &&& m1.header.message_id == m0.header.message_id &&& m1.token@ == m0.token@
                 &&& m1.header.code == MessageClass::Response(error.code->0)
                 &&& m1.payload@ == utf8_of(error.message)
                 // (which content format is set, if any, is the implementation's choice; every other option stays)
@@ -157,10 +163,12 @@ def build(repo, variant='resp'):
             })''', props=['C07'])
     g.contract((RQ, 'set_observe_flag'), '''        ensures opts_view(final(self).message.options) == opts_view(old(self).message.options).insert(6, seq![uint_be_min(usize_of_observe(flag) as nat)]),
             same_but_options(final(self).message, old(self).message), final(self).response == old(self).response, final(self).source == old(self).source''', props=['C19'])
-    g.contract((RQ, 'get_observe_flag'), '''        ensures r is Some <==> (opts_view(self.message.options).contains_key(6) && opts_view(self.message.options)[6].len() > 0),
+    g.contract((RQ, 'get_observe_flag'), '''        ensures r is Some ==> (opts_view(self.message.options).contains_key(6) && opts_view(self.message.options)[6].len() > 0),
+            // (one Observe value, as the setter leaves it; what a message with several reports is left open, except that it is never a named action the first value is not)
+            opts_view(self.message.options).contains_key(6) && opts_view(self.message.options)[6].len() == 1 ==> r is Some,
             r is Some ==> ({ let b = opts_view(self.message.options)[6][0];
                 // up to 4 bytes (what the setter stores): the registry entry of the value; never a named action it is not
-                (b.len() <= 4 ==> r->0 == observe_of_usize(be_val(b) as usize)) && (r->0 is Ok ==> usize_of_observe(r->0->Ok_0) == be_val(b)) })''', props=['C19'])
+                (b.len() <= 4 && opts_view(self.message.options)[6].len() == 1 ==> r->0 == observe_of_usize(be_val(b) as usize)) && (r->0 is Ok ==> usize_of_observe(r->0->Ok_0) == be_val(b)) })''', props=['C19'])
     # inner closures first (their positions are found by pattern, bodies stay verbatim)
     g.closure((RQ, 'get_observe_flag'), r'\|value\|', 'value: usize', 'y: Result<ObserveOption, InvalidObserve>', 'ensures y == observe_of_usize(value)', nth=1, count=2)
     g.closure((RQ, 'get_observe_flag'), r'\|value\|', 'value: u32', 'x: usize', 'ensures x == value as usize', nth=0, count=1)
